@@ -19,11 +19,51 @@ def fresh_copy():
     subprocess.run(['rsync', '-a', '--delete', '--exclude', 'target', '--exclude', '.git', '/repo/', SCR + '/repo/'], check=True)
 
 
-def run(prop, tier='quick'):
+def units_touching(prop, files):
+    """enabled units of `prop` whose contracts are anchored in one of the files the patch touches."""
+    sys.path.insert(0, os.path.join(VERIF, 'vp'))
+    from common import load_units
+    hit = []
+    for u in load_units():
+        if prop not in u['properties']:
+            continue
+        anchored = {os.path.normpath(sp['file']) for sp in u.get('splices', [])}
+        if u['tool'] == 'verus':
+            t = open(os.path.join(u['dir'], u['template'])).read()
+            inc = re.findall(r'//@include\s+(\S+)', t)
+            for i in inc:
+                try:
+                    t += open(os.path.join(u['dir'], i)).read()
+                except OSError:
+                    pass
+            anchored |= {os.path.normpath(x) for x in re.findall(r'//@(?:item|fn)\s+(\S+)\s*::', t)}
+        if anchored & files:
+            hit.append(u['unit'])
+    return hit
+
+
+def run(prop, tier='quick', files=None):
+    """full check of the property, or (faster, when `files` is given and VERIF_SELFTEST_FULL is unset) only the units
+    anchored in the touched files -- a unit anchored elsewhere cannot notice the change anyway."""
     env = dict(os.environ, VERIF_REPO=SCR + '/repo')
-    p = subprocess.run([sys.executable, os.path.join(VERIF, 'vp', 'run.py'), prop, '--tier', tier], env=env,
-                       stdout=subprocess.PIPE, stderr=subprocess.STDOUT, text=True)
-    return p.returncode, p.stdout
+    base = [sys.executable, os.path.join(VERIF, 'vp', 'run.py'), prop, '--tier', tier]
+    if files is None or os.environ.get('VERIF_SELFTEST_FULL'):
+        p = subprocess.run(base, env=env, stdout=subprocess.PIPE, stderr=subprocess.STDOUT, text=True)
+        return p.returncode, p.stdout
+    us = units_touching(prop, files)
+    if not us:
+        return 0, 'no enabled unit of this property is anchored in the touched files: ' + ', '.join(sorted(files))
+    rcs, outs = [], []
+    for un in us:
+        p = subprocess.run(base + ['--unit', un], env=env, stdout=subprocess.PIPE, stderr=subprocess.STDOUT, text=True)
+        o = p.stdout
+        if p.returncode == 2 and 'zero obligations' in o and 'VIOLATION' not in o and o.count('UNDECIDED') == 1:
+            rcs.append(0)   # a unit with only bounded / thorough harnesses, run alone
+        else:
+            rcs.append(p.returncode)
+        outs.append(o)
+    rc = 1 if 1 in rcs else (2 if 2 in rcs else 0)
+    return rc, '\n'.join(outs)
 
 
 def main():
@@ -44,7 +84,8 @@ def main():
         if ap.returncode != 0:
             summary.append((sid, prop, 'PATCH-FAILED', ap.stdout[-300:]))
             continue
-        rc, out = run(prop)
+        files = {os.path.normpath(x) for x in re.findall(r'^\+\+\+ b/(\S+)', open(patch).read(), re.M)}
+        rc, out = run(prop, files=files)
         viol = [l for l in out.splitlines() if l.startswith('VIOLATION')]
         und = [l for l in out.splitlines() if l.startswith('UNDECIDED')]
         summary.append((sid, prop, rc, (viol or und or out.splitlines()[-1:])[:3]))
